@@ -106,6 +106,7 @@ class Interp:
         self.stats = {"calls_inlined": 0, "prim_calls": 0, "std_calls": 0, "paths": 0, "user_calls": 0}
         self.trace = False
         self.loop_info = []
+        self.entry_unmodelled = {}
 
     # ------------------------------------------------------------------ obligations
     def oblige(self, kind, fr, node, what, goal, ok, method="", detail="", status=None):
@@ -154,6 +155,20 @@ class Interp:
                 self.oblige(kind, fr, node, what, self.path_goal(st), True, "documented: " + why, status="requires")
                 return
         self.oblige(kind, fr, node, what, self.path_goal(st), False, "", detail=self.describe(st))
+
+    def saturate_bounds(self, st):
+        """Natural numbers below an upper bound that is <= 0 do not exist: such arrays are empty."""
+        added = False
+        for term, bs in list(st.bnd.items()):
+            n = t_len(term)
+            if n.is_const():
+                continue
+            for b in bs:
+                if (b.is_const() and b.const_value() <= 0) or (not b.is_const() and st.ge(0, b)):
+                    if st.lin.add("eq", n):
+                        added = True
+                    break
+        return added
 
     def saturate_empty(self, st):
         """sum(x) = 0 for every array x of provably zero length that the facts mention."""
@@ -229,6 +244,7 @@ class Interp:
 
     def unmodelled_call(self, name, fr, node):
         self.unmodelled.setdefault(name, []).append(node.get("sp", "?"))
+        self.entry_unmodelled.setdefault(self.entry, set()).add(name)
 
     # ------------------------------------------------------------------ assume
     def assume(self, st, f, note=None):
